@@ -80,6 +80,17 @@ class Slice:
 NIL_SLICE = Slice(None, 0, 0, 0)
 
 
+class SymBytes:
+    """[]byte(s) of a symbolic string s: an immutable byte view whose length is Length(s)."""
+    __slots__ = ('s',)
+
+    def __init__(self, s):
+        self.s = s
+
+    def __repr__(self):
+        return 'SymBytes(%s)' % (self.s,)
+
+
 class MapRef:
     __slots__ = ('cell',)
 
